@@ -24,7 +24,9 @@ CONSTANTS Plus(_, _), Minus(_, _), Mul(_, _), DivN(_, _), Lt(_, _), Le(_, _),
           KeepHistory,            \* TRUE: `out` records the yielded times (E1); FALSE: not (long recorded traces)
           LtC(_, _), LeC(_, _),   \* comparisons used by the controller clamps only (exact over ticks; with a
                                   \* relative slack over doubles, where the clamps hold up to rounding)
-          Defects      \* subset of {"ClipBeforeHandOver","ShortenToEnd","ShortenRoundsUp"}
+          Defects,     \* subset of {"ClipBeforeHandOver","ShortenToEnd","ShortenRoundsUp"}
+          Frac(_, _, _),          \* Frac(n, d, x) = x * n / d  (stage times; rounded down over ticks)
+          StagesOf(_)             \* the stage fractions <<n, d>> of the Runge-Kutta pair of a configuration
 
 (* cfg is the run's configuration, never changed by a step:
      kind  "euler" | "rk" | "adams" | "bdf"
@@ -165,13 +167,14 @@ FinalClip ==
   /\ UNCHANGED <<phase, k, saveTime, noSent, stat>>
 
 \* branch E: RK4 start-up, shortened when H steps of dt do not fit before the end
+StartUpStep ==
+  IF Lt(Plus(time, Mul(H, dt)), T1) THEN dt
+  ELSE IF "ShortenToEnd" \in Defects THEN DivN(Minus(T1, time), H)
+  ELSE IF "ShortenRoundsUp" \in Defects THEN Plus(DivN(Minus(T1, time), H), 1)
+  ELSE DivN(Minus(T1, time), H + 1)
 StartUp ==
   /\ MS /\ phase = "plain" /\ hist = <<>> /\ Lt(time, T1) /\ Lt(Plus(time, dt), T1)
-  /\ LET fits == Lt(Plus(time, Mul(H, dt)), T1)
-         d == IF fits THEN dt
-              ELSE IF "ShortenToEnd" \in Defects THEN DivN(Minus(T1, time), H)
-              ELSE IF "ShortenRoundsUp" \in Defects THEN Plus(DivN(Minus(T1, time), H), 1)
-              ELSE DivN(Minus(T1, time), H + 1)
+  /\ LET d == StartUpStep
      IN /\ dt' = d
         /\ hist' = [i \in 1..H |-> RepAdd(time, d, i)]
         /\ time' = RepAdd(time, d, H)
@@ -229,6 +232,45 @@ StepActions(accept, grow, dt2) ==
      \/ PcTrial(accept, grow, dt2)
   /\ UNCHANGED cfg
 Faults == (stat = "run" /\ UserFail /\ UNCHANGED cfg) \/ (Fused /\ UNCHANGED cfg)
+
+(***************************************************************************)
+(* Where the user's derivative function is evaluated.  The plan of the     *)
+(* next step() call is a function of the state before it (accept / reject  *)
+(* only decide what happens afterwards):                                   *)
+(*   fixed : the evaluation times in order                                 *)
+(*   tail  : <<t>> when any further number (at least two) of evaluations   *)
+(*           follows, all at time t - the two implicit solves of a BDF     *)
+(*           trial step; <<>> otherwise                                    *)
+(* Checked by E1 (all planned times lie in [t0, t1]) and, time by time,    *)
+(* against the recorded evaluations of real runs (Trace_IvpProtocol).      *)
+(***************************************************************************)
+Rk4Times(t, d) == <<t, Plus(t, Frac(1, 2, d)), Plus(t, Frac(1, 2, d)), Plus(t, d)>>
+RECURSIVE StartTimes(_, _, _, _)
+\* n RK4 start-up steps of length d from t (i steps done so far): Adams also evaluates the derivative at the start
+\* of every step but the first, for its derivative history
+StartTimes(t, d, n, i) ==
+  IF i = n THEN (IF Kind = "adams" THEN <<RepAdd(t, d, n)>> ELSE <<>>)
+  ELSE Rk4Times(RepAdd(t, d, i), d) \o (IF Kind = "adams" /\ i > 0 THEN <<RepAdd(t, d, i)>> ELSE <<>>)
+       \o StartTimes(t, d, n, i + 1)
+NoEvals == [fixed |-> <<>>, tail |-> <<>>]
+EvalPlan ==
+  IF stat # "run" THEN NoEvals
+  ELSE IF Kind = "euler" THEN [fixed |-> IF Lt(time, T1) THEN <<time>> ELSE <<>>, tail |-> <<>>]
+  ELSE IF Kind = "rk"
+    THEN IF ~Lt(time, T1) THEN NoEvals
+         ELSE LET d == IF ~Lt(Plus(time, dt), T1) THEN Minus(T1, time) ELSE dt
+                  st == StagesOf(cfg)
+              IN [fixed |-> [i \in 1..Len(st) |-> Plus(time, Frac(st[i][1], st[i][2], d))], tail |-> <<>>]
+  ELSE IF phase \in {"hand", "sent"} THEN NoEvals
+  ELSE IF phase = "spec" /\ "ClipBeforeHandOver" \notin Defects /\ ~Lt(Plus(time, dt), T1) THEN NoEvals         \* CommitAtEnd
+  ELSE IF ~Lt(time, T1) THEN NoEvals                                                                           \* MsDone
+  ELSE IF ~Lt(Plus(time, dt), T1)                                                                               \* FinalClip
+    THEN [fixed |-> StartTimes(time, Minus(T1, time), 1, 0), tail |-> <<>>]
+  ELSE IF hist = <<>> THEN [fixed |-> StartTimes(time, StartUpStep, H, 0), tail |-> <<>>]                       \* StartUp
+  ELSE IF Kind = "adams" THEN [fixed |-> <<Plus(time, dt)>>, tail |-> <<>>]                                    \* PcTrial
+  ELSE [fixed |-> <<>>, tail |-> <<Plus(time, dt)>>]
+EvalsInsideInterval ==
+  LET p == EvalPlan IN \A i \in 1..Len(p.fixed \o p.tail) : Le(T0, (p.fixed \o p.tail)[i]) /\ Le((p.fixed \o p.tail)[i], T1)
 
 (***************************************************************************)
 (* Design-level invariants (checked by E1).                                *)
